@@ -1,0 +1,8 @@
+//go:build !verif
+
+// Package vhook provides named instrumentation points for the verification
+// harness. Without the `verif` build tag every call compiles to nothing.
+package vhook
+
+// At marks a named point in block processing. No-op without the `verif` tag.
+func At(string) {}
